@@ -238,6 +238,31 @@ theorem file_roundtrip (F : FileM) (hwf : F.wf = true) : parseText (render F) = 
     | (apply File.file_roundtrip <;> assumption)
 
 open Midgard.Spec.AntexFile in
+/-- **which characters end a line.**  `read_data` iterates the text-mode file object (`Model/TextLines.lean`): the
+lines it sees for a rendered well-formed file are exactly the rendered records — a free-text cell (COMMENT, METH,
+SINEX CODE …) may contain form feed, vertical tab, FS/GS/RS, NEL, U+2028/9 (where `str.splitlines()` would cut) and
+still stays one line; `FileM.wf` only excludes `\n` and `\r` -/
+theorem lines_of_rendered_file (F : FileM) (hwf : F.wf = true) :
+    Midgard.TextLines.textLines (render F) = Midgard.Spec.AntexFile.fileLines F :=
+  File.fileLines_joinLines _ (File.nonl_file F hwf)
+
+/-- a line ends at `\n` / `\r` and nowhere else: a text without these two characters, closed by a newline, is one line -/
+theorem only_newline_and_cr_end_a_line (l : Str) (h : ∀ c ∈ l, Midgard.TextLines.isLineEnd c = false) :
+    Midgard.TextLines.textLines (l ++ ['\n']) = [l] := by
+  have := File.fileLines_joinLines [l] (by intro x hx; rw [List.mem_singleton.mp hx]; exact h)
+  simpa [Midgard.Spec.AntexFile.joinLines] using this
+
+/-- every character on which `str.splitlines()` and text-mode iteration differ stays inside its line -/
+example : (Midgard.TextLines.splitlinesOnlyCodes.map Char.ofNat).all
+    (fun c => Midgard.TextLines.isSplitlinesOnly c && !Midgard.TextLines.isLineEnd c &&
+      decide (Midgard.TextLines.textLines ("ROBOT".toList ++ c :: "PAGE 2\n".toList) = ["ROBOT".toList ++ c :: "PAGE 2".toList])) = true := by
+  decide +kernel
+
+/-- `\r\n` is one line end, `\r` alone is one -/
+example : Midgard.TextLines.textLines "a\r\nb\rc\n\nd".toList = ["a".toList, "b".toList, "c".toList, [], "d".toList] := by
+  decide +kernel
+
+open Midgard.Spec.AntexFile in
 /-- rms sections (wherever they stand) and unread lines contribute nothing: what the file says is what the file
 without them says -/
 theorem rms_and_unread_lines_contribute_nothing (F : FileM) :
@@ -266,8 +291,8 @@ theorem antenna_section (a : AntM) (ha : a.wf = true) (more : List Str) (s : Sta
     | exact File.antenna_group ..
     | (apply File.antenna_group <;> assumption)
 
-/-- a satellite antenna with two frequencies (azimuth rows), an rms section between them, a comment and a METH
-record inside the section, VALID UNTIL …59.9999999 -/
+/-- a satellite antenna with two frequencies (azimuth rows), an rms section between them, a comment (containing a form
+feed and U+2028, where `str.splitlines()` would cut) and a METH record inside the section, VALID UNTIL …59.9999999 -/
 def tinyModel : Midgard.Spec.AntexFile.FileM :=
   let n (t : String) (v : Rat) : Midgard.Spec.AntexFile.NumCell := ⟨t.toList, v⟩
   let i (t : String) (v : Int) : Midgard.Spec.AntexFile.IntCell := ⟨t.toList, v⟩
@@ -285,7 +310,7 @@ def tinyModel : Midgard.Spec.AntexFile.FileM :=
                             1055996639⟩,
         freqs := [⟨"G01".toList, body "6.00" 6, some (body "7.00" 7)⟩, ⟨"G02".toList, body "8.00" 8, none⟩],
         rmsAfter := [("G02".toList, body "9.00" 9)],
-        deco := [[], [], [.meth "ROBOT".toList "Geo++ GmbH".toList "1".toList "29-JAN-17".toList], [], [.comment " a comment".toList]] }],
+        deco := [[], [], [.meth "ROBOT".toList "Geo++ GmbH".toList "1".toList "29-JAN-17".toList], [], [.comment " ROBOT\x0cPAGE 2 \u2028 (form feed and U+2028 inside)".toList]] }],
     trailer := [.blank, .comment "end".toList] }
 
 example : tinyModel.wf = true := by decide +kernel
@@ -381,6 +406,8 @@ end Midgard.Props.C15
 #print axioms Midgard.Props.C15.receiver_frequency_once
 #print axioms Midgard.Props.C15.satellite_period_once
 #print axioms Midgard.Props.C15.file_roundtrip
+#print axioms Midgard.Props.C15.lines_of_rendered_file
+#print axioms Midgard.Props.C15.only_newline_and_cr_end_a_line
 #print axioms Midgard.Props.C15.rms_and_unread_lines_contribute_nothing
 #print axioms Midgard.Props.C15.parse_eq_parse_core
 #print axioms Midgard.Props.C15.antenna_section
